@@ -1,14 +1,24 @@
 """C02 plug-in.  K: the model's `parse` answer carries exact decimal expressions (Text.Num) that are
 evaluated in binary64 and must equal the implementation's f64 results exactly.  S: acceptance, canonical
 form and meaning against the intended term list (exact rationals; variable values are r^12 with small
-dyadic r and all generated exponents have denominators dividing 12, so every power is an exact rational)."""
+dyadic r and all generated exponents have denominators dividing 12, so every power is an exact rational; integer
+exponents are exact at every value; anything else is referred to a 60-digit `decimal` power).  The oracle abstains from
+judging a VALUE only when a factor, a partial product or the coefficient leaves [2^-900, 2^900] (overflow / underflow is
+outside its rounding model; the bit-for-bit correspondence K still decides there).  Tolerance: 64u per token of the
+intended term list (coefficient and exponent conversions, one powf and one product per factor, one addition per term)
+plus 4u * sum |e ln x| for the effect of the exponent's own rounding, all relative to sum |term|."""
 from fractions import Fraction
 from oracle_util import *
 
 RULE = ("texts rendered from random term lists of the multivariate grammar (1-5 terms, 0-4 distinct variables per term in random "
         "order, coefficient forms '', n, n.d, .d, a/b, exponent forms n, -n, n.d, a/b, -a/b, random Unicode white space) through "
         "both entry points, evaluated under full and incomplete assignments; univariate texts through both parsers; random "
-        "term structures through eval_multivariate. Non-trivial = an accepted text/structure with at least one variable; "
+        "term structures through eval_multivariate. Hardening families: 0^0, zero / negative / signed-zero values and values at every "
+        "distance from 1 and 0 under integer exponents, missing variables beside zero-valued ones, wrongly named / unused / repeated "
+        "bindings, every letter of both cases and case pairs inside a term, coefficient and exponent spellings of extreme magnitude "
+        "and length, 6-40 terms and 5-26 variables per term, exponents up to the dense parser's limit through both parsers, "
+        "structures with extreme numbers through eval_multivariate / eval_univariate; every evaluation is repeated through the "
+        "free function, borrowed names, a HashMap, f32 / i32 values and the univariate entry point (harness verdict). Non-trivial = an accepted text/structure with at least one variable; "
         "distinct = distinct request lines")
 
 def _parse_inter(tokens, numconv):
@@ -79,37 +89,121 @@ def _intended(extra):
         terms.append((c, vs))
     return terms
 
+LO, HI = Fraction(1, 2 ** 900), Fraction(2 ** 900)
+
+
+def _inrange(v):
+    return v == 0 or LO <= abs(v) <= HI
+
+
+def _iroot12(n):
+    """exact integer 12th root of n >= 0, or None"""
+    if n < 2:
+        return n
+    r = 1 << ((n.bit_length() + 11) // 12)
+    while True:                      # Newton from above
+        nr = (11 * r + n // r ** 11) // 12
+        if nr >= r:
+            break
+        r = nr
+    return r if r ** 12 == n else None
+
+
+def _dec_pow(x, e):
+    """x > 0, any rational e: 60-digit reference through `decimal` (relative error < 1e-55)"""
+    import decimal
+    ctx = decimal.Context(prec=70, Emax=decimal.MAX_EMAX, Emin=decimal.MIN_EMIN)
+    dx = ctx.divide(decimal.Decimal(x.numerator), decimal.Decimal(x.denominator))
+    de = ctx.divide(decimal.Decimal(e.numerator), decimal.Decimal(e.denominator))
+    try:
+        r = ctx.power(dx, de)
+    except decimal.Overflow:
+        return Fraction(2 ** 2000)
+    except decimal.DecimalException:
+        return None
+    if not r.is_finite():
+        return None
+    if r == 0:
+        return Fraction(1, 2 ** 2000)
+    if not (-400 < r.adjusted() < 400):
+        return Fraction(2 ** 2000) if r.adjusted() > 0 else Fraction(1, 2 ** 2000)     # far out of range either way
+    return Fraction(r)
+
+
+def _pow_int(x, k):
+    """x^k for a rational x != 0 and an integer k: exact while affordable, else a 60-digit reference (the
+    relative error 1e-60 is far below every tolerance used here)"""
+    if abs(x) == 1:
+        return Fraction(1) if (x > 0 or k % 2 == 0) else Fraction(-1)
+    if max(x.numerator.bit_length(), x.denominator.bit_length()) * abs(k) <= 20000:
+        return x ** k
+    r = _dec_pow(abs(x), Fraction(k))
+    if r is None:
+        return None
+    return -r if (x < 0 and k % 2) else r
+
+
 def _exact_pow(x, e):
-    """x = r^12 exactly (r rational), e with denominator dividing 12 -> exact rational x^e"""
+    """x^e as an exact rational when that exists (integer e; x = r^12 with rational r and 12e an integer),
+    else a 60-digit reference for x > 0; None outside the natural domain"""
+    if x is None or e is None:
+        return None
     if e.denominator == 1:
-        return x ** int(e) if (x != 0 or e >= 0) else None
-    # 12th root of x
-    def iroot(n):
-        r = round(n ** (1.0 / 12))
-        for c in (r - 1, r, r + 1):
-            if c >= 0 and c ** 12 == n:
-                return c
+        if x == 0:
+            return (Fraction(1) if e == 0 else Fraction(0)) if e >= 0 else None
+        return _pow_int(x, int(e))
+    if x < 0:
         return None
-    a, b = iroot(x.numerator), iroot(x.denominator)
-    if a is None or b is None or 12 % e.denominator:
-        return None
-    r = Fraction(a, b)
-    k = e * 12
-    return r ** int(k)
+    if x == 0:
+        return Fraction(0) if e > 0 else None
+    if 12 % e.denominator == 0:
+        a, b = _iroot12(x.numerator), _iroot12(x.denominator)
+        if a is not None and b is not None:
+            k = int(e * 12)
+            lg = abs(a.bit_length() - b.bit_length())
+            if (lg + 1) * abs(k) <= 40000:
+                return Fraction(a, b) ** k
+    return _dec_pow(x, e)
+
+
+def _lg(x):
+    """upper bound of |ln x|"""
+    return abs(x.numerator.bit_length() - x.denominator.bit_length()) + 1
+
 
 def _value(terms, env):
-    total = Fraction(0); scale = Fraction(0)
+    """-> (value, scale, amp) | (("missing"|"unknown"|"range", name), None, None).
+    amp bounds sum_f |e_f| |ln x_f| over the factors of a term (effect of the exponent's own rounding)."""
     for c, vs in terms:
-        v = c
         for name, e in vs:
             if name not in env:
-                return ("missing", name), None
-            p = _exact_pow(env[name], e)
+                return ("missing", name), None, None
+    total = Fraction(0); scale = Fraction(0); amp = 0
+    for c, vs in terms:
+        v = c
+        if c is None:
+            return ("unknown", "coefficient"), None, None
+        if not _inrange(c):
+            return ("range", "coefficient"), None, None
+        a = 0
+        for name, e in sorted(vs):
+            x = env[name]
+            p = _exact_pow(x, e)
             if p is None:
-                return ("unknown", name), None
+                return ("unknown", name), None, None
             v *= p
+            if not _inrange(p) or not _inrange(v):
+                return ("range", name), None, None
+            if x != 0:
+                a += abs(e) * _lg(x)
+        amp = max(amp, a)
         total += v; scale += abs(v)
-    return total, scale
+    return total, scale, amp
+
+
+def _tol(ntok, scale, amp):
+    return U * scale * (64 * (ntok + 4) + 4 * amp) + Fraction(1, 2 ** 1000)
+
 
 def oracle(req, impl):
     head, extra = split_req(req)
@@ -151,18 +245,23 @@ def oracle(req, impl):
         for _ in range(nb):
             name, i = read_string(head, i)
             env[name] = frac_of_bits(head[i]); i += 1
-        val, scale = _value(want, env)
+        if t[:1] == ["panic"]:
+            return "parse + eval_multivariate panicked"
+        val, scale, amp = _value(want, env)
         if isinstance(val, tuple):
             if val[0] == "missing":
                 if t[:2] != ["err", "VariableNotFound"]:
                     return f"variable {val[1]} is unbound but the answer is {impl}"
+                return None
+            if t[0] != "ok":
+                return f"parse+eval of a grammatical string with every variable bound failed: {impl}"
             return None
         if t[0] != "ok":
             return f"parse+eval of a grammatical string failed: {impl}"
         got = tok_frac(t[1])
         if got is None:
-            return "value is not finite"
-        tol = 64 * U * (len(extra) + 4) * scale + Fraction(1, 2 ** 1000)
+            return f"value is not finite, the string means {float(val)!r}"
+        tol = _tol(len(extra), scale, amp)
         if abs(got - val) > tol:
             return f"value {float(got)!r}, the string means {float(val)!r}"
         return None
@@ -178,47 +277,95 @@ def oracle(req, impl):
         if t[0] != "ok" or t[2] != "ok":
             return f"a univariate string was not accepted/evaluated by both parsers: {impl}"
         a, b = tok_frac(t[1]), tok_frac(t[3])
-        want = sum(c * x ** k for k, c in dense.items())
-        scale = sum(absd[k] * abs(x) ** k for k in absd)
-        tol = 64 * U * (n + 4) * scale + Fraction(1, 2 ** 1000)
+        if x is None:
+            return None
+        if t[0] == "panic" or "panic" in t:
+            return "parse + eval_univariate panicked"
+        kmax = max(list(dense) + [0])
+        pw = {k: (Fraction(1) if k == 0 else (Fraction(0) if x == 0 else _pow_int(x, k))) for k in dense}
+        if any(pw[k] is None or not _inrange(pw[k]) or not _inrange(absd[k] * pw[k]) for k in dense):
+            return None               # overflow / underflow: outside the oracle's rounding model
+        want = sum(c * pw[k] for k, c in dense.items())
+        scale = sum(absd[k] * abs(pw[k]) for k in absd)
+        # powi (repeated squaring) errs by up to k u on x^k
+        tol = 64 * U * (n + 4 + kmax) * scale + Fraction(1, 2 ** 1000)
         if a is None or b is None or abs(a - want) > tol or abs(b - want) > tol:
-            return f"representations disagree with the string's value {float(want)!r}: univariate {a and float(a)!r}, multivariate {b and float(b)!r}"
+            return f"representations disagree with the string's value {float(want)!r}: univariate {None if a is None else float(a)!r}, multivariate {None if b is None else float(b)!r}"
         return None
-    if cmd == "evalm":
+    if cmd in ("evalm", "eval"):
         # missing variable must be an error, never a number: recompute which names are used/bound
         toks = head[1:]
-        assert toks[0] == "I"
-        terms, names = _parse_inter(toks[1:], lambda b: frac_of_bits(b))
-        # position after the polynomial
-        def skip(tokens):
-            i = 0
-            nt = int(tokens[i]); i += 1
-            for _ in range(nt):
-                i += 1
-                nv = int(tokens[i]); i += 1
-                for _ in range(nv):
-                    _, i = read_string(tokens, i); i += 1
-            m = int(tokens[i]); i += 1
-            for _ in range(m):
-                _, i = read_string(tokens, i)
-            return i
-        i = skip(toks[1:]) + 1
-        nb = int(toks[i]); i += 1
-        env = {}
-        for _ in range(nb):
-            name, i = read_string(toks, i)
-            env[name] = frac_of_bits(toks[i]); i += 1
-        val, scale = _value(terms, env)
+        if t[:1] == ["panic"]:
+            return "evaluation panicked"
+        if toks[0] == "S":
+            var = toks[1]
+            n = int(toks[2])
+            cs = [frac_of_bits(b) for b in toks[3:3 + n]]
+            i = 3 + n
+            if cmd == "evalm":
+                nb = int(toks[i]); i += 1
+                bl = []
+                for _ in range(nb):
+                    name, i = read_string(toks, i)
+                    bl.append((name, frac_of_bits(toks[i]))); i += 1
+                if len({nm for nm, _ in bl}) != 1 or var == "-" or bl[-1][0] != chr(int(var)):
+                    return None       # the dense type ignores names (documented): only the matching binding is judged
+                x = bl[-1][1]
+            else:
+                x = frac_of_bits(toks[i])
+            if x is None or any(c is None for c in cs):
+                return None
+            terms = [(c, [("v", Fraction(k))] if k else []) for k, c in enumerate(cs)]
+            env = {"v": x}
+        else:
+            assert toks[0] == "I"
+            terms, names = _parse_inter(toks[1:], lambda b: frac_of_bits(b))
+            # position after the polynomial
+            def skip(tokens):
+                i = 0
+                nt = int(tokens[i]); i += 1
+                for _ in range(nt):
+                    i += 1
+                    nv = int(tokens[i]); i += 1
+                    for _ in range(nv):
+                        _, i = read_string(tokens, i); i += 1
+                m = int(tokens[i]); i += 1
+                for _ in range(m):
+                    _, i = read_string(tokens, i)
+                return i
+            i = skip(toks[1:]) + 1
+            env = {}
+            if cmd == "evalm":
+                nb = int(toks[i]); i += 1
+                for _ in range(nb):
+                    name, i = read_string(toks, i)
+                    env[name] = frac_of_bits(toks[i]); i += 1
+            else:
+                # eval_univariate: more than one declared variable is an error, otherwise the single variable is bound
+                if len(names) > 1:
+                    if t[:2] != ["err", "TooManyVariables"]:
+                        return f"eval_univariate on a polynomial in {names} answered {impl}"
+                    return None
+                x = frac_of_bits(toks[i])
+                if names:
+                    env[names[0]] = x
+            if any(v is None for v in env.values()):
+                return None
+        val, scale, amp = _value(terms, env)
         if isinstance(val, tuple):
-            if val[0] == "missing" and t[:2] != ["err", "VariableNotFound"]:
-                return f"variable {val[1]} is unbound but the answer is {impl}"
+            if val[0] == "missing":
+                if t[:2] != ["err", "VariableNotFound"]:
+                    return f"variable {val[1]} is unbound but the answer is {impl}"
+                return None
+            if t[0] != "ok":
+                return f"evaluation with all variables bound failed: {impl}"
             return None
         if t[0] != "ok":
             return f"evaluation with all variables bound failed: {impl}"
         got = tok_frac(t[1])
         if got is None:
-            return None  # overflow / 0^negative: outside the natural domain
-        tol = 64 * U * (len(toks) + 4) * scale + Fraction(1, 2 ** 1000)
+            return f"evaluation returned a non-finite value, sum of coefficient * prod value^exponent is {float(val)!r}"
+        tol = _tol(len(toks), scale, 0)
         if abs(got - val) > tol:
             return f"value {float(got)!r}, sum of coefficient * prod value^exponent is {float(val)!r}"
         return None
@@ -228,7 +375,7 @@ def nontrivial(req, model):
     r = req.split()
     if r[0] == "parse":
         return model.startswith("ok I") and " 1 1" in model or " 1 " in model
-    return r[0] in ("pe", "both", "evalm")
+    return r[0] in ("pe", "both", "evalm", "eval")
 
 def tag(req, model):
     r = req.split(); m = model.split()
